@@ -34,6 +34,8 @@ def obligations(tier):
     if is_open:
         obs.append(Ob("L1.argv_commit[known: single quote]", "c12.py", "argv_commit_git", {"len": ln, "tool": "git", "only_single_quote": True},
                       expect="known", finding=KEY_QUOTE, timeout=t))
+    for tool in ("git", "hg"):
+        obs.append(Ob(f"L1.commit_tag_argv[{tool}]", "c12.py", "commit_tag_argv", {"len": min(ln, 3), "tool": tool}, timeout=t))
     obs.append(Ob("L1.hg_commit_logfile", "c12.py", "hg_commit_logfile", {"len": ln}, timeout=t))
     obs.append(Ob("twin.argv_reached", "c12.py", "twin_argv_never_four", {"len": ln}, expect="refute", timeout=60))
     obs.append(Ob("L2.shorthand", "c12.py", "shorthand", {}, timeout=t))
